@@ -55,9 +55,21 @@ class Raw:
         self.samples = []
         self.counts = {'ok': 0, 'refused': 0, 'skipped': 0}
         self.lines = src.split('\n')
+        self.mode = 'expr' if name.startswith('xroot_expr') else 'exec'
 
     def fresh(self):
-        return self.FST(self.src, 'exec')
+        return self.FST(self.src, self.mode)
+
+    def parse(self, text):
+        """CPython's parse of a whole new source for this root's kind (SyntaxError if it is not one)"""
+        if self.mode == 'expr':
+            # "re-parsing the whole file" for an expression root is the library's own expression parse of the whole text
+            # (leading blanks / comments / line breaks allowed as in FST(src, 'expr'); that parser is C05's subject)
+            try:
+                return self.FST(text, 'expr').a
+            except Exception as e:
+                raise SyntaxError(str(e)) from None
+        return ast.parse(text)
 
     def fail(self, prop, key, what, **kw):
         if prop not in self.props:
@@ -121,7 +133,9 @@ class Raw:
             same = same[col:len(same) - (len(self.lines[eln]) - ecol)]
             texts = ['', same, 'x', 'pass', '(', ' ', 'é + 1', same + '  # c' if '\n' not in same else same, '# c', 'wh # c:',
                      'if z:\n' + ' ' * col + '    y']
-            if quick:
+            if self.mode != 'exec':
+                texts += ['] = [1', ' = 1', 'b + 1', 'x;', ' and ']     # texts that change what the whole source is
+            elif quick:
                 texts = [same] + rnd.sample(texts, 3)
             for text in texts:
                 self.one_reparse(ln, col, eln, ecol, text)
@@ -132,7 +146,7 @@ class Raw:
         src0, d0 = root.src, dump(root.a)
         exp = splice(self.lines, text, ln, col, eln, ecol)
         try:
-            ast.parse(exp)
+            self.parse(exp)
             valid = True
         except SyntaxError:
             valid = False
@@ -161,7 +175,7 @@ class Raw:
             self.fail('C10', key + ':accepted_invalid', f'{desc} succeeded although the new whole source is not valid '
                       f'Python', new_source=exp[:300])
             return
-        v = tree_diff(ast.parse(exp), root.a)
+        v = tree_diff(self.parse(exp), root.a)
         if v:
             self.fail('C10', key + ':tree', f'{desc} succeeded but the tree differs from a from-scratch parse: {v}',
                       new_source=exp[:300])
@@ -408,6 +422,8 @@ def work(name, src, payload):
     # deterministic enumeration (independent of VERIF_SEED): the known C10 findings are listed by exact input
     rnd = random.Random(zlib.crc32(f'12345:{name}:raw'.encode()))
     ops = payload.get('ops', ['reparse', 'rawput', 'offset'])
+    if r.mode != 'exec':
+        ops = [o for o in ops if o == 'reparse']     # expression roots: the partial (path based) reparse only
     if 'reparse' in ops:
         r.reparse_sweep(quick, rnd)
     if 'rawput' in ops:
@@ -419,9 +435,17 @@ def work(name, src, payload):
             'counts': r.counts}
 
 
+# roots that are not modules: a nested raw edit is reparsed along the path from the root, which has to fail (and change
+# nothing) when the whole new source is no longer an expression
+XROOTS = [('xroot_expr_attr_of_list', '[a, b].c'), ('xroot_expr_call_sub', 'f(x, y=1)[k]'), ('xroot_expr_ifexp', 'a if b else c'),
+          ('xroot_expr_binop', 'a + b * c'), ('xroot_expr_lambda', 'lambda x: (x, 1)')]
+
+
 def main(payload):
     from contracts import b_lib
     progs = b_lib.load_corpus(payload.get('tier', 'quick'), payload.get('programs'))
+    if 'C10' in payload['props'] and not payload.get('programs'):
+        progs = list(progs) + XROOTS
     payload = dict(payload, norm=False)
     res = b_lib.run_parallel('b_raw', 'work', progs, payload)
     props = ','.join(payload['props'])
@@ -438,7 +462,7 @@ def main(payload):
 def replay(payload):
     from contracts import b_lib
     rep = payload.get('replay') or payload
-    progs = dict(b_lib.load_corpus())
+    progs = dict(list(b_lib.load_corpus()) + XROOTS)
     name = rep.get('program')
     if name not in progs:
         return {'reproduced': False, 'note': 'program not in corpus'}
@@ -451,7 +475,7 @@ def replay(payload):
 def main_all_failures(payload):
     """every failing input of the deterministic sweep (used by tools/gen_known_c10.py only)"""
     from contracts import b_lib
-    progs = b_lib.load_corpus()
+    progs = list(b_lib.load_corpus()) + XROOTS
     payload = dict(payload, norm=False, max_fail=100000)
     res = b_lib.run_parallel('b_raw', 'work', progs, payload)
     out = []
